@@ -9,8 +9,10 @@
 //! files than the paths channel holds); trees with entries the scanning user
 //! cannot read (chmod 000 files and directories; when running as root `yr` is
 //! started as uid 65534); trees from which files are removed while the walk is
-//! in progress; file names that are not valid UTF-8; the abort probe
-//! (`--timeout` with a rule that never finishes, capacity+1 / capacity+2 files).
+//! in progress; file names that are not valid UTF-8 (both output formats print
+//! them lossily, U+FFFD; the first tree of every run is of this kind); the abort
+//! probe (`--timeout` with a rule that never finishes, capacity+1 / capacity+2
+//! files, one worker: must exit).
 use std::collections::{BTreeMap, HashMap, HashSet};
 use std::ffi::OsString;
 use std::fs;
@@ -95,6 +97,7 @@ fn gen_content(rng: &mut Rng, nrules: usize) -> Vec<u8> {
 
 fn gen_tree(rng: &mut Rng, root: &Path, kind: TreeKind, nrules: usize, cap: usize) -> Tree {
     let nfiles = if kind == TreeKind::Mutate { cap + 100 + rng.below(500) as usize } else { match rng.below(10) {
+        0 if kind == TreeKind::NonUtf8 => 2 + rng.below(6) as usize,
         0 => rng.below(3) as usize,                              // empty / tiny
         1..=5 => 3 + rng.below(40) as usize,
         6 | 7 => 40 + rng.below(100) as usize,
@@ -118,10 +121,12 @@ fn gen_tree(rng: &mut Rng, root: &Path, kind: TreeKind, nrules: usize, cap: usiz
     }
     let mut files = vec![];
     for i in 0..nfiles {
-        let (p, depth) = dirs[rng.below(dirs.len() as u64) as usize].clone();
+        // the first file of a non-UTF-8 tree always has such a name and lives in the root (in scope for every depth option)
+        let forced = kind == TreeKind::NonUtf8 && i == 0;
+        let (p, depth) = if forced { (vec![], 0) } else { dirs[rng.below(dirs.len() as u64) as usize].clone() };
         let mut rel = p.clone();
         if !rel.is_empty() { rel.push(b'/'); }
-        let name: Vec<u8> = match (kind, rng.below(12)) {
+        let name: Vec<u8> = match (kind, if forced { 0 } else { rng.below(12) }) {
             (TreeKind::NonUtf8, 0..=2) => { let mut n = format!("f{i}_").into_bytes(); n.extend_from_slice(&[0xff, 0xfe, b'x']); n }
             (TreeKind::Stable, 0) => format!("f{i} with space.bin").into_bytes(),
             (TreeKind::Stable, 1) => format!("f{i}-\u{e9}\u{4e2d}.txt").into_bytes(),
@@ -383,12 +388,13 @@ fn run(args: &[String]) -> i32 {
     let mut run_cases = 0usize;
     while run_cases < n {
         tree_idx += 1;
-        let kind = match rng.below(20) {
+        // regression corpus first: a tree with file names that are not UTF-8 (ndjson used to panic: fix 20aad900)
+        let kind = if tree_idx == 1 { rng.below(20); TreeKind::NonUtf8 } else { match rng.below(20) {
             0..=11 => TreeKind::Stable,
             12..=14 => if can_restrict { TreeKind::Perm } else { TreeKind::Stable },
             15..=17 => TreeKind::Mutate,
             _ => TreeKind::NonUtf8,
-        };
+        } };
         let rs = gen_rules(&mut rng);
         let rule_ids: HashMap<String, u64> = rs.names.iter().enumerate().map(|(i, n)| (n.clone(), i as u64)).collect();
         let tdir = work.join(format!("t{}", tree_idx));
